@@ -397,7 +397,7 @@ func V2Funcs() map[string]*runtimev2.Fn {
 		"boom": {Call: func(ctx *runtimev2.Task, e *ast.CallExpr) *errchain.PlError {
 			return runtimev2.NewRunError(ctx, "boom", e.NamePos)
 		}, CallCheck: v2ok},
-		"void": {Call: func(ctx *runtimev2.Task, e *ast.CallExpr) *errchain.PlError { return nil }, CallCheck: v2ok},
+		"void":  {Call: func(ctx *runtimev2.Task, e *ast.CallExpr) *errchain.PlError { return nil }, CallCheck: v2ok},
 		"sink":  declaredSink(sinkParams),
 		"vsink": declaredSink(vsinkParams),
 		"multi": {Call: func(ctx *runtimev2.Task, e *ast.CallExpr) *errchain.PlError {
